@@ -669,12 +669,16 @@ def check_records(what, o, ch, ref, refs, latest, model, add, here, counters):
                         add('C18', 'run_info_params', f'{here}: run info of {n}: parameter {pn} recorded as {params[pn]!r}, the run used {refscheme.value_repr(v, gv_active)!r}')
                 exp_inputs = {m: wref.tasks[m]['key'] for m in wt['inputs']}
                 got_inputs = info.get('input_tasks')
-                if got_inputs != exp_inputs and sorted((got_inputs or {}).values()) != sorted(exp_inputs.values()):
+                if not wref.parameter_mode:
+                    # name mode: the library records input keys only for parameter-mode configs; there the config name (recorded) IS the key of every task
+                    counters['name_mode_run_infos'] += 1
+                elif got_inputs != exp_inputs and sorted((got_inputs or {}).values()) != sorted(exp_inputs.values()):
                     add('C18', 'run_info_inputs', f'{here}: run info of {n} records input keys {got_inputs}, the run had {exp_inputs}')
                 cfg = info.get('config') or {}
                 shared = sum(1 for x in wref.tasks.values() if x['slug'] == wt['slug'] and x['key'] == wt['key']) > 1
                 if not shared:
-                    if not str(cfg.get('name', '')).startswith(wt['inst']['name'] + '/') or (cfg.get('namespace') or None) != ('::'.join(wt['ns']) or None):
+                    name_ok = str(cfg.get('name', '')).startswith(wt['inst']['name'] + '/') if wref.parameter_mode else cfg.get('name') == wt['inst']['name']
+                    if not name_ok or (cfg.get('namespace') or None) != ('::'.join(wt['ns']) or None):
                         add('C18', 'run_info_config', f'{here}: run info of {n} names config {cfg.get("name")} / namespace {cfg.get("namespace")}, '
                                                         f'the task came from config {wt["inst"]["name"]} in namespace {"::".join(wt["ns"]) or None}')
         else:
